@@ -11,7 +11,7 @@ float32 bits  fl(fl(sum) * fl(1/div))  (exact rational arithmetic, round-to-near
 The harness' own oracle (ORACLE lines) recomputes the mean from the pixel values it generated.
 
 Tie, pipeline level: the whole real runtime on the deterministic scheduler with the mock driver
-(checks/rtx.py, classes avg / avgmon / avgabort): what storage and the monitor received vs the camera's frames,
+(checks/rtx.py, classes avg / avgmon / avgabort / avgtwo): what storage and the monitor received vs the camera's frames,
 under many schedules of source, filter and sink.
 """
 import itertools
@@ -495,7 +495,7 @@ def run(ctx):
             for p in problems:
                 ex.report(ent["scenario"], p, pipeline_relevant)
         nscen, nsched = (180, 20) if thorough else (22, 8)
-        rtx.explore(ctx, ex, ["avg", "avgmon", "avgabort"], nscen, nsched, pipeline_relevant)
+        rtx.explore(ctx, ex, ["avg", "avgmon", "avgabort", "avgtwo"], nscen, nsched, pipeline_relevant)
         pipe = {"runs": ex.stats["runs"], "per_class": ex.stats["per_class"], "run_endings": ex.stats["ends"],
                 "oracle_kinds_hit": ex.stats["oracle_kinds"], "distinct_class_schedule_pairs": len(ex.distinct)}
     cov = ctx.cov
@@ -516,7 +516,7 @@ def run(ctx):
                    "optional accept/reset/shape/type disturbances) run through the real filter.c and through the Lean model; validated = every committed "
                    "frame (id, type, shape, size, float32 bit pattern of every pixel), every pending accumulator after every batch and the return codes "
                    "agree; distinct = distinct (k, op/type sequence, branch set) among validated cases that complete a window or flush a trailing one. "
-                   "Pipeline run = one averaging scenario of checks/rtx.py (classes avg, avgmon, avgabort) under one schedule; its oracles compare what "
+                   "Pipeline run = one averaging scenario of checks/rtx.py (classes avg, avgmon, avgabort, avgtwo) under one schedule; its oracles compare what "
                    "storage and the monitor received with the mock camera's frames (exact float mean, ids k apart, count n/k (+1)).")
     missing = [b for b in ("first", "cont", "emit", "refused", "shape", "reset-pending", "fin-pending", "err-cont", "emit-lost") if exe and not hits[b]]
     if missing:
